@@ -12,6 +12,10 @@ R5  a child is appended to some note P's children list (adoption by nsync_note_f
     away, and the child of the already notified P is never notified.
 R7  nsync_note_free unlinks a child from its list only on the path where child->disconnecting was read as 0 under the child's mutex.
 R8  nsync_mu_unlock_without_wakeup ends a note-mutex critical section only if that section changed neither a child list nor the flag.
+R9  "wait on / free concurrently": nsync_note_free requires an empty waiter list, and a waiter record lives in its waiter's frame or pool; a
+    record is therefore appended to n->waiters only in a critical section of n's mutex in which n was found not notified (= C08.R6 restricted
+    to the waiter list) - a record linked onto an already drained note is never unlinked by a notifier and is still there, dead, when the
+    note is freed.
 R6  a notifier performs the unlock-n / lock-cached-parent step only if it raised n->disconnecting from zero (path-sensitive: the count read
     under n's mutex is abstracted to {0, non-zero}); otherwise a second disconnector can unlink n, the parent is freed, and the stale pointer is
     locked (finding F5, repaired).
@@ -134,6 +138,18 @@ def run(ctx, rep):
     # waking unlock
     rep.rule('C09.R8', 'nsync_mu_unlock_without_wakeup on a note mutex only after a critical section that changed neither the child list nor the flag')
     check_waking_unlock(eng, rep, 'C09.R8')
+    rep.rule('C09.R9', 'waiter records are linked onto a note only after re-reading its state under the note mutex (no dead record on a drained note)')
+    n9 = 0
+    for r in eng.records:
+        if r.kind == 'enqueue' and r.field == 'nsync_note_s_.waiters':
+            n9 += 1
+            ok = holds(r.held, r.obj) and r.observed
+            rep.instance('C09.R9', 'append to the waiter list at %s [%s] state re-read under the lock: %s' % (r.where(), r.entry, r.observed)); rep.oblig('C09.R9', ok)
+            if not ok:
+                rep.violate(Violation('C09.R9', r.where(), 'a waiter record is linked onto the note without re-reading the notified state inside the critical section: after a notification that completed just before, the record stays on the drained list (the wait is never cancelled) and is still linked - pointing into a dead frame - when the note is legally freed [entry %s]' % r.entry,
+                                      site='%s/stale-waiter-registration' % r.inst.fn.name))
+    if n9 == 0:
+        raise AnalysisBroken('C09.R9: no append to a note waiter list seen')
     rep.floor('C09.R1', 6)
     rep.floor('C09.R2', 2)
     rep.floor('C09.R3', 1)
